@@ -88,7 +88,30 @@ def ref_text(desc, node, host=None, full=False):
             c = st.choice(('', '$')) + st.choice((c, c.lower()))
             r = st.choice(('', '$')) + r
         return c + r
-    if k == 'cell':
+    r1c1 = None
+    if st and full and host is not None and len(host) >= 4 and k in ('cell', 'rng') \
+            and st.random() < 0.3:
+        # R1C1 notation, absolute or relative to the host cell (offsets of 0
+        # are written as plain R / C); files hold A1 formulas only
+        hc, hr = host[2], host[3]
+
+        def rc(c, r, rel):
+            if not rel:
+                return 'R%dC%d' % (r, c)
+            return 'R%sC%s' % ('[%d]' % (r - hr) if r != hr else '',
+                               '[%d]' % (c - hc) if c != hc else '')
+        rel = False     # qualified references: the library reads relative
+        #                 R1C1 only without a sheet (see C03's flat family)
+        if k == 'cell':
+            if not (rel and node[3] == hc and node[4] == hr):
+                r1c1 = rc(node[3], node[4], rel)
+        elif not rel or (hc not in (node[3], node[5]) and hr not in (node[4], node[6])):
+            r1c1 = '%s:%s' % (rc(node[3], node[4], rel), rc(node[5], node[6], rel))
+        if r1c1 and st.random() < 0.3:
+            r1c1 = r1c1.lower()
+    if r1c1:
+        ref = r1c1
+    elif k == 'cell':
         ref = cell(node[3], node[4])
         if st and st.random() < 0.15:
             ref = '%s:%s' % (ref, cell(node[3], node[4]))      # redundant A1:A1
@@ -176,7 +199,7 @@ def to_dict(desc, order=None):
         else:
             key = key_of(desc, b, s, c, r)
         if 'f' in cell:
-            val = '=' + formula_text(desc, cell['f'], (b, s), full=True)
+            val = '=' + formula_text(desc, cell['f'], (b, s, c, r), full=True)
         else:
             val = cell['v']
             if isinstance(val, str) and val.startswith('#'):
@@ -371,7 +394,7 @@ def gen(rng, n_books=None, n_formulas=None, forms=None, whole_col=False,
             if rg[0] == 'rng':
                 desc['names'][nm] = rg
     n_formulas = n_formulas or rng.randint(6, 16)
-    slots = {}
+    slots, row_base = {}, {}
     for i in range(n_formulas):
         b = rng.randrange(len(desc['books']))
         s = rng.randrange(len(desc['books'][b]['sheets']))
@@ -382,9 +405,13 @@ def gen(rng, n_books=None, n_formulas=None, forms=None, whole_col=False,
             s = 1
         k = slots.get((b, s), 0)
         cur['b'] = b
-        col, row = 5 + k // ROWS, 1 + k % ROWS          # E.. formula zone
+        if (b, s) not in row_base:
+            # some sheets keep their formulas further down, so that array
+            # formulas straddle the one-digit / two-digit row boundary
+            row_base[(b, s)] = rng.choice((0, 0, 6))
+        col, row = 5 + k // ROWS, 1 + row_base[(b, s)] + k % ROWS   # E.. formula zone
         cells = desc['books'][b]['sheets'][s]['cells']
-        if rng.random() < 0.15 and row + 2 <= ROWS:
+        if rng.random() < 0.15 and (k % ROWS) + 3 <= ROWS:
             # array formula over 3 rows: range * k  or  range + cell
             src = a_range()
             tries = 0
